@@ -39,7 +39,7 @@ func init() {
 			for i := range c03Inits() {
 				u = append(u, "init#"+strconv.Itoa(i))
 			}
-			return append(u, "entry-length-residues#0", "entry-length-residues#1", "certificate-kinds#0", "certificate-kinds#1")
+			return append(u, "entry-length-residues#0", "entry-length-residues#1", "certificate-kinds#0", "certificate-kinds#1", "huge")
 		},
 		Run: c03Run,
 		Bound: func(tier string) map[string]any {
@@ -336,6 +336,10 @@ func c03CertSweep(c *hx.Ctx, shard int, items []c03Signer, label string) {
 func c03Run(c *hx.Ctx, tier, unit string) {
 	c.NoOnly = true
 	vtime.Set(time.Date(2024, 5, 6, 7, 8, 9, 0, time.UTC))
+	if unit == "huge" {
+		c03Huge(c, tier)
+		return
+	}
 	if strings.HasPrefix(unit, "certificate-kinds#") {
 		c03Variety(c, int(unit[len(unit)-1]-'0'))
 		return
